@@ -167,6 +167,18 @@ let make_interp (mask : int) (j : int) : interp =
            | Some SReal -> VN real_grid.(h mod Array.length real_grid)
            | _ -> VU (nat_of_int (h mod 3)))) }
 
+(* an explicit assignment of the variables (from an untrusted solver's model); everything else as in make_interp 0 0 *)
+let interp_of_assignment (asg : (string * string) list) : interp =
+  let base = make_interp 0 0 in
+  { vi = (fun s x ->
+        let nm = (match s with SBool -> "b" | SInt -> "i" | SReal -> "r" | SU O -> "u" | SU _ -> "a") ^ string_of_int (int_of_nat x) in
+        match List.assoc_opt nm asg, s with
+        | Some v, SBool -> VB (v = "true" || v = "1")
+        | Some v, (SInt | SReal) -> VN (q_of_string v)
+        | Some v, SU _ -> VU (nat_of_int (int_of_string v))
+        | None, _ -> base.vi s x);
+    fi = base.fi }
+
 let describe_interp (mask : int) (j : int) (ts : term list) : string =
   (* the values of the variables occurring in ts under the interpretation *)
   let i = make_interp mask j in
@@ -272,6 +284,16 @@ let process (line : string) : string =
       | Some r -> sem_check (raw_app opn args) r (label <> "ok") in
     let shown = match snd (List.hd variants) with Some t -> print_term (canon t) | None -> "none" in
     Printf.sprintf "T=%s\tS=%s\tW=%d\tmodel=%s" label s w shown
+  | "V" :: asg :: opn :: res :: args ->
+    (* evaluate  op(args)  and  res  under an explicit assignment "x=v x=v ..." *)
+    let asg = List.filter_map (fun e -> match String.index_opt e '=' with
+        | Some i -> Some (String.sub e 0 i, String.sub e (i + 1) (String.length e - i - 1)) | None -> None)
+        (String.split_on_char ' ' asg) in
+    let i = interp_of_assignment asg in
+    let args = List.map (fun a -> term_of_sx (parse_sx a)) args in
+    let a = eval i (raw_app opn args) and b = eval i (term_of_sx (parse_sx res)) in
+    if a <> b then Printf.sprintf "T=na\tS=cex:%s lhs=%s rhs=%s\tW=0\tmodel=none" (String.concat " " (List.map (fun (x, v) -> x ^ "=" ^ v) asg)) (value_key a) (value_key b)
+    else "T=na\tS=ok:1\tW=0\tmodel=none"
   | _ -> "T=bad\tS=none\tW=0\tmodel=none"
 
 let () =
